@@ -61,11 +61,13 @@ def main(ctx):
     for need in ("write-direct", "write-drained", "flush", "close", "none"):
         ctx.expect_vacuity("model surfacing site " + need, surf.get(need, 0))
     ctx.extra["model_surfacing_sites"] = surf
-    if not thorough:      # quick: a seeded sample of the histories, every surfacing class kept
-        by = {}
-        for c in model_cases:
-            by.setdefault(c["surfaced"], []).append(c)
-        model_cases = [c for k in sorted(by) for c in vlib.sample(ctx.rng, by[k], 120)]
+    # a seeded sample of the histories, every surfacing class kept (each case is run on 4 writers x 2 compressions;
+    # a process keeps the goroutines of the runs that ended in log.Fatal, so the number of runs per process is bounded)
+    by = {}
+    for c in model_cases:
+        by.setdefault(c["surfaced"], []).append(c)
+    model_cases = [c for k in sorted(by) for c in vlib.sample(ctx.rng, by[k], 1200 if thorough else 120)]
+    ctx.extra["model_cases_replayed"] = len(model_cases)
     expanded = []
     for c in model_cases:
         for f in FMTS:
